@@ -73,6 +73,8 @@ def run(ctx):
     cov = {"obligations": gate["obligations"], "discharged": gate["discharged"], "theorems": gate["theorems"],
            "samples": []}
     base = P.corpus() + P.bench_fens() + [f for _, f in P.probe_families()[::7]]
+    # every small material signature (nothing / N / B / R / Q / P and pairs, either side, both sides to move)
+    base += [f for _, f in P.material_families(ctx["seed"] % 3, 2 if ctx["tier"] == "quick" else 8)]
     n_walk = 400 if tier == "quick" else 20000
     starts = [base[rng.randrange(len(base))] for _ in range(n_walk)]
     rc, so, se = C.driver(["randfens", str(seed), "50"], "\n".join(starts) + "\n")
